@@ -86,7 +86,7 @@ func Tanh(d Number) Number {
 			Real:    d.Real,
 			E1mag:   d.E1mag,
 			E2mag:   d.E2mag,
-			E1E2mag: -d.Real,
+			E1E2mag: e1e2AtZero(d, -d.Real),
 		}
 	case math.Inf(1):
 		return Number{
@@ -126,7 +126,7 @@ func Asinh(d Number) Number {
 			Real:    d.Real,
 			E1mag:   d.E1mag,
 			E2mag:   d.E2mag,
-			E1E2mag: -d.Real,
+			E1E2mag: e1e2AtZero(d, -d.Real),
 		}
 	}
 	fn := math.Asinh(d.Real)
@@ -191,7 +191,7 @@ func Atanh(d Number) Number {
 			Real:    d.Real,
 			E1mag:   d.E1mag,
 			E2mag:   d.E2mag,
-			E1E2mag: d.Real,
+			E1E2mag: e1e2AtZero(d, d.Real),
 		}
 	}
 	if math.Abs(d.Real) == 1 {
